@@ -4,7 +4,7 @@ sys.path.insert(0, os.path.dirname(os.path.dirname(os.path.abspath(__file__))))
 from fractions import Fraction as F
 from vlib.rat import INF, NINF
 from vlib import run, gen_lp, model, basis as vbasis, script as vscript
-from vlib.rat import parse
+from vlib.rat import parse, fmt
 from checks import solvefam as sf
 
 
@@ -75,6 +75,79 @@ def gen_ret_case(tier, seed, k):
     L = lines + ["dump_basis b0", "basis_optimalstatus p0 b0", "basis_dualstatus p0 b0", "verify p0 b0 0 0", "verify p0 b0 1 0", "verify p0 b0 1 1"]
     L += model.script_build(m, "p3") + sf.param_lines(cfg, "p3") + ["solve_exact p3 %s b0 xy" % ("primal" if cfg["entry"] == "exact-primal" else "dual"), "dumpsol p3"]
     return run.Case("C12-ret-%d" % k, L, dict(kind="ret", cfg=cfg)), m
+
+
+def gen_degenwarm_case(tier, seed, k):
+    """a solved LP whose costs are then moved by 2^-k (far below the double tolerances) and which is re-solved by the exact driver
+    from the old optimal basis: at a degenerate vertex the old basis may stay primal feasible without being dual feasible any
+    more; the basis handed back with OPTIMAL has to be confirmed by the verdict functions."""
+    rnd = run.rng("C12", tier, seed, "degenwarm", k)
+    gadget = rnd.random() < 0.6
+    if gadget:
+        # a degenerate vertex by construction: x1 + x2 >= a(1+u), x1 - x2 >= a(1-u), 0 <= x2 <= a*u: at (a, a*u) both rows and the
+        # bound of x2 are tight; min x1 - x2 is optimal there for every basis of that vertex, min x1 - (1+eps) x2 only for some
+        m = gen_lp.planted_optimal(rnd, rnd.randint(0, 2), rnd.randint(0, 2), "int") if rnd.random() < 0.5 else model.LP("dg", model.MIN)
+        s_ = F(m.objsense)
+        a_, u = F(rnd.randint(1, 4)), F(rnd.randint(1, 3))
+        x1 = model.Col(None, s_ * 1, F(0), INF)
+        x2 = model.Col(None, s_ * -1, F(0), a_ * u)
+        r1 = model.Row(None, "G", a_ * (1 + u), 0, {x1: F(1), x2: F(1)})
+        r2 = model.Row(None, "G", a_ * (1 - u), 0, {x1: F(1), x2: F(-1)})
+        if m.objsense == model.MAX:
+            x1.obj, x2.obj = F(-1), F(1)
+        front = rnd.random() < 0.5
+        m.cols = ([x1, x2] + m.cols) if front else (m.cols + [x1, x2])
+        m.rows = ([r1, r2] + m.rows) if rnd.random() < 0.5 else (m.rows + [r1, r2])
+        for c in m.cols:
+            c.name = None
+        for r in m.rows:
+            r.name = None
+        m = gen_lp._names(m)
+        gj = m.cols.index(x2)
+    else:
+        m = gen_lp.family(rnd, rnd.choice(["degenerate", "degenerate", "boxed", "small-int", "planted-opt", "tiny"]))
+    cfg = sf.rnd_config(rnd, entries=("exact-primal", "exact-dual"), limits=False, bases=False)
+    algo = "primal" if cfg["entry"] == "exact-primal" else "dual"
+    L = model.script_any(m, "p0", rnd) + sf.param_lines(cfg, "p0") + ["solve_exact p0 %s b0 xy" % algo]
+    if gadget and rnd.random() < 0.5:
+        # start from the basis {x1, x2} of the degenerate vertex rather than from whatever the first solve ended on
+        cs = "".join("1" if c in (x1, x2) else ("0" if c.lo != NINF else ("2" if c.up != INF else "3")) for c in m.cols)
+        rs = "".join("0" if r in (r1, r2) else "1" for r in m.rows)
+        if cs.count("1") + rs.count("1") == m.nrows:
+            L.append("make_basis b0 %d %d %s %s" % (m.ncols, m.nrows, cs, rs))
+    for _ in range(rnd.randint(1, 3)):
+        if not m.ncols:
+            break
+        j = gj if gadget else rnd.randrange(m.ncols)
+        c = m.cols[j]
+        c.obj = c.obj + F(rnd.choice([1, -1]), 2 ** rnd.choice([30, 40, 50, 51, 52, 53, 60]))
+        L.append("change_objcoef p0 %d %s" % (j, fmt(c.obj)))
+        if gadget:
+            break
+    L += ["solve_exact p0 %s b0 xy" % rnd.choice(["primal", "dual"]), "dumpsol p0", "dump_basis b0", "basis_optimalstatus p0 b0", "basis_dualstatus p0 b0"]
+    return run.Case("C12-degenwarm-%d" % k, L, dict(kind="degenwarm", cfg=cfg)), m
+
+
+def judge_degenwarm(case, res, m):
+    V, C = [], {}
+    if res.crash:
+        return [(run.crash_key("C12", res.crash), "process died in %s: %s\n%s" % (res.crash.get("op"), res.crash["kind"], res.crash["text"][:1500]))], {"crash": 1}, 0
+    if res.timeout:
+        return [], {"watchdog_inconclusive": 1}, 0
+    sv = res.evs("solve_exact")
+    if len(sv) < 2 or sv[-1].get("rc") != 0 or sv[-1].get("status") != 1:
+        return V, {"degenwarm:not-optimal": 1}, 0
+    C["degenwarm:optimal"] = 1
+    eo, ed, ds = res.ev("basis_optimalstatus"), res.ev("basis_dualstatus"), res.ev("dumpsol")
+    bas = sv[-1].get("basis") or {}
+    desc = "warm re-solve after a 2^-k cost change returned OPTIMAL with basis c=%s r=%s" % (bas.get("cstat"), bas.get("rstat"))
+    if eo is None or eo.get("rc") != 0 or eo.get("result") != 1:
+        V.append(("C12|degenwarm|returned-basis-not-optimal", "%s, QSexact_basis_optimalstatus says %r" % (desc, eo)))
+    if ed is None or ed.get("rc") != 0 or ed.get("result") != 1:
+        V.append(("C12|degenwarm|returned-basis-not-dual-feasible", "%s, QSexact_basis_dualstatus says %r" % (desc, ed)))
+    elif ds is not None and ds.get("objval_rc") == 0 and not check_dobj(m, parse(ed["dobjval"]), parse(ds["objval"])):
+        V.append(("C12|degenwarm|dual-bound-differs", "%s: dual bound %s, objective %s" % (desc, ed["dobjval"], ds["objval"])))
+    return V, C, 1
 
 
 def check_dobj(m, dobj, value):
@@ -223,6 +296,8 @@ def chunk(payload):
         for k in range(start, start + count):
             if kind == "enum":
                 c, m, bases = gen_enum_case(tier, seed, k)
+            elif kind == "degenwarm":
+                c, m = gen_degenwarm_case(tier, seed, k)
             else:
                 c, m = gen_ret_case(tier, seed, k)
             res = run.run_cases(os.path.join(bindir, "qsdrive"), [c], os.path.join(wd, "c%d" % k), batch=1, timeout=600)
@@ -236,7 +311,7 @@ def chunk(payload):
                 if c.meta["full"]:
                     cnt["lps-with-complete-basis-enumeration"] = cnt.get("lps-with-complete-basis-enumeration", 0) + 1
             else:
-                V, C, nontriv = judge_ret(c, res[c.id], m)
+                V, C, nontriv = (judge_degenwarm if kind == "degenwarm" else judge_ret)(c, res[c.id], m)
                 part["evaluations"] += 1
                 if nontriv:
                     part["distinct"].append(run.h(c.script))
@@ -258,7 +333,7 @@ def chunk(payload):
 RULE = ("enum: small LPs (<=3 rows x 4 cols, all senses/bound shapes) x every basic set x every type-consistent nonbasic assignment (complete enumeration unless capped); "
         "each non-singular basis (exact rank in Fractions) is evaluated exactly and QSexact_basis_optimalstatus / _dualstatus (+dobjval) / QSexact_verify must answer "
         "accordingly; sloppy twins: a nonbasic status naming a bound the column does not have must get the verdicts of the basis with the column on its only finite bound (or be refused); ret: bases returned by QSexact_solver under random configurations must have nrows basics and, if non-singular, be exactly optimal with the reported "
-        "value, be confirmed by the three verdict functions and by a warm start on a fresh object; non-trivial/distinct = (LP, basis) pairs resp. scripts")
+        "value, be confirmed by the three verdict functions and by a warm start on a fresh object; degenwarm: solve, move costs by 2^-30..2^-100, re-solve from the old optimal basis: the basis returned with OPTIMAL must be confirmed by both verdict functions with the reported value; non-trivial/distinct = (LP, basis) pairs resp. scripts")
 
 
 def run_check(prop, tier, seed):
@@ -266,7 +341,7 @@ def run_check(prop, tier, seed):
     rep = run.Report(prop, tier, seed, RULE)
     q = tier == "quick"
     payloads = []
-    for kind, n, step in (("enum", 64 if q else 900, 2), ("ret", 320 if q else 8000, 10)):
+    for kind, n, step in (("enum", 64 if q else 900, 2), ("ret", 320 if q else 8000, 10), ("degenwarm", 160 if q else 8000, 10)):
         for s in range(0, n, step):
             payloads.append(dict(tier=tier, seed=seed, kind=kind, start=s, count=min(step, n - s), bindir=b["asan"]))
     for part in run.pool_map("checks.c12", "chunk", payloads):
@@ -281,7 +356,11 @@ def replay(prop, path):
     k, tier, seed = meta.get("k"), meta.get("tier", "quick"), meta.get("seed", 1)
     wd = run.workdir("replayC12")
     try:
-        if meta.get("kind") == "enum":
+        if meta.get("kind") == "degenwarm":
+            c, m = gen_degenwarm_case(tier, seed, k)
+            res = run.run_cases(os.path.join(b["asan"], "qsdrive"), [c], wd, batch=1, timeout=600)
+            V, C, _ = judge_degenwarm(c, res[c.id], m)
+        elif meta.get("kind") == "enum":
             c, m, bases = gen_enum_case(tier, seed, k)
             res = run.run_cases(os.path.join(b["asan"], "qsdrive"), [c], wd, batch=1, timeout=600)
             V, C, _ = judge_enum(c, res[c.id], m, bases)
